@@ -1,14 +1,14 @@
 #!/bin/bash
 # accept_seed2.sh <Cxx> : verifies round-2 deliveries (m4, m5) of one property and files the confirmed ones under seeded/.
 P=$1
-for M in m4 m5; do
-  SRC=/tmp/seedout2/$P/$M
+for M in ${MUTS:-m4 m5}; do
+  SRC=${SEEDROOT:-/tmp/seedout2}/$P/$M
   [ -f $SRC/patch.diff ] || { echo "$P $M: no delivery"; continue; }
-  SEEDOUT=/tmp/seedout2 /verif/tools/verify_seed.sh $P $M >/dev/null
-  python3 - "$P" "$M" <<'PY'
+  SEEDOUT=${SEEDROOT:-/tmp/seedout2} /verif/tools/verify_seed.sh $P $M >/dev/null
+  python3 - "$P" "$M" "${SEEDROOT:-/tmp/seedout2}" "${ROUND:-round 2}" <<'PY'
 import json,sys,os,shutil
-P,M=sys.argv[1:3]
-src=f'/tmp/seedout2/{P}/{M}'
+P,M,ROOT,ROUND=sys.argv[1:5]
+src=f'{ROOT}/{P}/{M}'
 v=json.load(open(src+'/verified.json'))
 ok=v['applies'] and v['suite_with_patch'] and v['demo_fails_with_patch'] and v['demo_passes_without']
 print(P,M,'CONFIRMED' if ok else 'REJECTED',v)
@@ -19,10 +19,10 @@ if ok:
     shutil.copytree(src+'/demo',dst+'/demo')
     m=json.load(open(src+'/meta.json'))
     out={'id':f'{P}-{M}','property':P,'summary':m.get('summary'),'needs_to_manifest':m.get('needs_to_manifest'),'files_changed':m.get('files_changed'),
-     'origin':'round 2: written by a fresh sub-agent that was given only the property text, the list of sites already attacked in round 1, and a scratch worktree of /repo at 37e460e (nothing from /verif)',
+     'origin':ROUND+': written by a fresh sub-agent that was given only the property text, the list of sites already attacked in earlier rounds, and a scratch worktree of /repo at 37e460e (nothing from /verif)',
      'confirmed_by_me':{'how':'tools/verify_seed.sh in a scratch worktree of /repo: git apply; full suite `GOPROXY=off go test -mod=mod -vet=off -count=1 ./...` passes with the change; demonstration fails with the change and passes without it',
        'demo_cmd':v['demo_cmd'],'applies':True,'suite_passes_with_patch':True,'demo_fails_with_patch':True,'demo_passes_without_patch':True}}
     json.dump(out,open(dst+'/meta.json','w'),indent=1)
 PY
 done
-git -C /repo worktree remove --force /tmp/wt/${P}r2 2>/dev/null; rm -rf /tmp/wt/${P}r2
+git -C /repo worktree remove --force /tmp/wt/${P}${WTSUF:-r2} 2>/dev/null; rm -rf /tmp/wt/${P}${WTSUF:-r2}
